@@ -23,8 +23,8 @@ NODES = ['S', 'a', 'b', 'c', 'T']
 
 
 @st.composite
-def one_path(draw, mids_pool, base, scale):
-    n = draw(st.integers(1, 4))
+def one_path(draw, mids_pool, base, scale, minhops=1):
+    n = draw(st.integers(minhops, 4))
     t0 = draw(st.integers(0, 5))
     times = [t0]
     for _ in range(n - 1):
@@ -46,8 +46,12 @@ def path_list(draw):
     mids_pool = draw(st.sampled_from([['a', 'b', 'c'], ['a', 'b', 'c'], [-1, -2, 3], [0, -1, -2], [1, '1', 2], ['7', 7, 'a'],
                                       [{"obj": 0}, {"obj": 1}, {"obj": 2}], [{"obj": 3}, 'a', {"tuple": [1, 2]}]]))
     base = draw(st.sampled_from([0, 0, 0, -2, -5, -1, 10 ** 9, 2 ** 63 - 2, -(2 ** 63) - 3, 2 ** 70]))
-    scale = draw(st.sampled_from([1, 1, 1, 10 ** 9]))
-    return draw(st.lists(one_path(mids_pool, base, scale), min_size=1, max_size=8))
+    # scales: hop-to-hop gaps of 1-3 units, of ~1e9, or of ~2^62 / 2^63 (durations on both sides of the signed 64-bit
+    # limit, one unit apart); with the huge scales half of the lists have multi-hop paths only, so that *every*
+    # duration of the list is huge
+    scale = draw(st.sampled_from([1, 1, 1, 1, 10 ** 9, 2 ** 63 - 1, 2 ** 62]))
+    minhops = 2 if scale > 10 ** 9 and draw(st.booleans()) else 1
+    return draw(st.lists(one_path(mids_pool, base, scale, minhops), min_size=1, max_size=8))
 
 
 def strategy(tier):
